@@ -137,7 +137,14 @@ Applies(b, m) == b.id = "sirj" \/ m \in GenericMutations
 Pick == /\ mut = ""
         /\ \E m \in {x \in Mutations : Applies(Bases[bi], x)} : mut' = m /\ obs' = ToJson([base |-> Bases[bi].id, mutation |-> m, verdict |-> Verdict(m)])
         /\ UNCHANGED bi
-Spec == Init /\ [][Pick]_vars
+\* Databook defects that need structure none of the abstracted bases has: an interaction between populations whose values are missing, a timed
+\* (duration) parameter whose value varies over time. Only the databook rule is concerned; the library files that have the structure are named here.
+FeatureDataCases == {<<"lib_combined", "databook_interaction_missing_values">>, <<"lib_sir_vaccine", "databook_timed_parameter_varies">>}
+DataVerdict(m) == IF DataComplete([datadefects |-> {m}]) THEN "accept" ELSE "reject"
+PickData == /\ mut = "" /\ bi = 1
+            /\ \E c \in FeatureDataCases : mut' = c[2] /\ obs' = ToJson([base |-> c[1], mutation |-> c[2], verdict |-> DataVerdict(c[2])])
+            /\ UNCHANGED bi
+Spec == Init /\ [][Pick \/ PickData]_vars
 BaseValid == Valid(Bases[bi])
-CatalogueConsistent == mut # "" => (Valid(Mutate(Bases[bi], mut)) <=> Verdict(mut) = "accept")
+CatalogueConsistent == (mut # "" /\ mut \in Mutations) => (Valid(Mutate(Bases[bi], mut)) <=> Verdict(mut) = "accept")
 ====
